@@ -48,7 +48,7 @@ def digest_text(fmt, rnd):
     return oracle.digest(fmt, bytes(rnd.getrandbits(8) for _ in range(16)))
 
 
-SIZES = [0, 1, 12345, 2**31 - 1, 2**31, 2**40 + 7]
+SIZES = [0, 1, 12345, 2**31 - 1, 2**31, 2**40 + 7, 2**53 + 1, 10**18 + 3]
 ACTIONS = ["original", "verified", "failed"]
 
 
